@@ -154,13 +154,54 @@ fn file_case(c: &(String, FileKind), rec: &mut Rec) {
 }
 
 /// one pure record of a model with a saturation curve
-struct PureCase {
-    file: String,
-    name: String,
-    build: Box<dyn Fn() -> Result<Arc<ResidualModel>, String> + Send + Sync>,
-    tr_min: f64,
+pub struct PureCase {
+    pub file: String,
+    pub name: String,
+    pub build: Box<dyn Fn() -> Result<Arc<ResidualModel>, String> + Send + Sync>,
+    pub tr_min: f64,
     /// helium with second-order Feynman-Hibbs correction is excepted by the property
-    vle_excepted: bool,
+    pub vle_excepted: bool,
+}
+
+/// physical critical point of a pure model: default start first, other initial temperatures if the
+/// solver returns a spurious stationary point at non-positive pressure
+pub fn physical_critical_point(eos: &Arc<ResidualModel>) -> Option<State<ResidualModel>> {
+    let physical = |s: &State<ResidualModel>| s.pressure(Contributions::Total).to_reduced() > 0.0;
+    let mut cp = State::critical_point(eos, None, None, Default::default()).ok().filter(|s| physical(s));
+    if cp.is_none() {
+        for t0 in [700.0, 500.0, 900.0, 400.0, 1100.0, 200.0, 100.0, 50.0, 20.0] {
+            cp = State::critical_point(eos, None, Some(Temperature::from_reduced(t0)), Default::default()).ok().filter(|s| physical(s));
+            if cp.is_some() {
+                break;
+            }
+        }
+    }
+    cp
+}
+
+/// every pure PC-SAFT, SAFT-VR Mie and SAFT-VRQ Mie record shipped with the library
+pub fn pure_cases() -> Vec<PureCase> {
+    let mut pures: Vec<PureCase> = vec![];
+    for f in PCSAFT_PURE {
+        let f = format!("pcsaft/{f}.json");
+        let recs: Vec<PureRecord<PcSaftRecord>> = load(&f).unwrap_or_default();
+        for r in recs {
+            let name = r.identifier.name.clone().or(r.identifier.cas.clone()).unwrap_or_default();
+            pures.push(PureCase { file: f.to_string(), name, build: Box::new(move || PcSaftParameters::new_pure(r.clone()).map(|p| Arc::new(ResidualModel::PcSaft(PcSaft::new(Arc::new(p))))).map_err(|e| e.to_string())), tr_min: 0.45, vle_excepted: false });
+        }
+    }
+    for r in load::<PureRecord<SaftVRMieRecord>>("saftvrmie/lafitte2013.json").unwrap_or_default() {
+        let name = r.identifier.name.clone().unwrap_or_default();
+        pures.push(PureCase { file: "saftvrmie/lafitte2013.json".into(), name, build: Box::new(move || SaftVRMieParameters::new_pure(r.clone()).map(|p| Arc::new(ResidualModel::SaftVRMie(SaftVRMie::new(Arc::new(p))))).map_err(|e| e.to_string())), tr_min: 0.45, vle_excepted: false });
+    }
+    for f in ["saftvrqmie/aasen2019.json", "saftvrqmie/aasen2019_fh2.json", "saftvrqmie/hammer2023.json"] {
+        for r in load::<PureRecord<SaftVRQMieRecord>>(f).unwrap_or_default() {
+            let name = r.identifier.name.clone().unwrap_or_default();
+            let exc = f.contains("fh2") && name == "helium";
+            pures.push(PureCase { file: f.to_string(), name, build: Box::new(move || SaftVRQMieParameters::new_pure(r.clone()).map(|p| Arc::new(ResidualModel::SaftVRQMie(SaftVRQMie::new(Arc::new(p))))).map_err(|e| e.to_string())), tr_min: 0.6, vle_excepted: exc });
+        }
+    }
+    pures
 }
 
 pub fn tr_lattice(tr_min: f64, n: usize) -> Vec<f64> {
@@ -179,17 +220,11 @@ fn pure_case(c: &PureCase, rec: &mut Rec) {
     // the record "has a critical point": the default start of the solver is tried first; a result at
     // non-positive pressure is a spurious stationary point of the solver (property C06), in which case
     // the search is repeated from other initial temperatures
-    let physical = |s: &State<ResidualModel>| s.pressure(Contributions::Total).to_reduced() > 0.0;
-    let mut cp = State::critical_point(&eos, None, None, Default::default()).ok().filter(|s| physical(s));
-    if cp.is_none() {
+    let default_ok = State::critical_point(&eos, None, None, Default::default()).ok().map(|s| s.pressure(Contributions::Total).to_reduced() > 0.0).unwrap_or(false);
+    if !default_ok {
         rec.count("critical_point_needed_initial_temperature");
-        for t0 in [700.0, 500.0, 900.0, 400.0, 1100.0, 200.0, 100.0, 50.0, 20.0] {
-            cp = State::critical_point(&eos, None, Some(Temperature::from_reduced(t0)), Default::default()).ok().filter(|s| physical(s));
-            if cp.is_some() {
-                break;
-            }
-        }
     }
+    let cp = physical_critical_point(&eos);
     let Some(cp) = cp else {
         rec.require("critical_point", "", false, || format!("{}: {}: no critical point at positive pressure from any initial temperature", c.file, c.name));
         return;
@@ -314,25 +349,7 @@ pub fn run(ctx: &mut Ctx) {
         ctx.machinery_error = Some(format!("parameter files without a record type in the harness table: {missing:?}"));
     }
     // ---- pure records with a saturation curve
-    let mut pures: Vec<PureCase> = vec![];
-    for f in &pcsaft_pure_files {
-        let recs: Vec<PureRecord<PcSaftRecord>> = load(f).unwrap_or_default();
-        for r in recs {
-            let name = r.identifier.name.clone().or(r.identifier.cas.clone()).unwrap_or_default();
-            pures.push(PureCase { file: f.to_string(), name, build: Box::new(move || PcSaftParameters::new_pure(r.clone()).map(|p| Arc::new(ResidualModel::PcSaft(PcSaft::new(Arc::new(p))))).map_err(|e| e.to_string())), tr_min: 0.45, vle_excepted: false });
-        }
-    }
-    for r in load::<PureRecord<SaftVRMieRecord>>("saftvrmie/lafitte2013.json").unwrap_or_default() {
-        let name = r.identifier.name.clone().unwrap_or_default();
-        pures.push(PureCase { file: "saftvrmie/lafitte2013.json".into(), name, build: Box::new(move || SaftVRMieParameters::new_pure(r.clone()).map(|p| Arc::new(ResidualModel::SaftVRMie(SaftVRMie::new(Arc::new(p))))).map_err(|e| e.to_string())), tr_min: 0.45, vle_excepted: false });
-    }
-    for f in ["saftvrqmie/aasen2019.json", "saftvrqmie/aasen2019_fh2.json", "saftvrqmie/hammer2023.json"] {
-        for r in load::<PureRecord<SaftVRQMieRecord>>(f).unwrap_or_default() {
-            let name = r.identifier.name.clone().unwrap_or_default();
-            let exc = f.contains("fh2") && name == "helium";
-            pures.push(PureCase { file: f.to_string(), name, build: Box::new(move || SaftVRQMieParameters::new_pure(r.clone()).map(|p| Arc::new(ResidualModel::SaftVRQMie(SaftVRQMie::new(Arc::new(p))))).map_err(|e| e.to_string())), tr_min: 0.6, vle_excepted: exc });
-        }
-    }
+    let pures = pure_cases();
     ctx.extra("pure_records_with_saturation_curve", json!(pures.len()));
     ctx.run(&pures, |c| format!("{}|{}", c.file, c.name), pure_case);
     // ---- gc substances
